@@ -231,12 +231,67 @@ func (c *FuncCtx) traceAppend(st *State, f string, vals []*Val) {
 	st.heap[traceKey(f)+"|n"] = mkAdd(n, "1")
 }
 
+// observesTrace: does the contract of the function under verification talk
+// about individual records (arguments, results, times) of trace f? Only then
+// are the "recorded prefix is unchanged" facts worth stating at a havoc; the
+// counters ncalls/nfails are always tracked. (Leaving hypotheses out is sound.)
+func (c *FuncCtx) observesTrace(f string) bool {
+	if c.contract == nil {
+		return false
+	}
+	if c.observed == nil {
+		c.observed = map[string]bool{}
+		for _, raw := range c.contract.rawTexts() {
+			for _, kw := range []string{"callarg(", "callres(", "calltime("} {
+				for i := 0; ; {
+					j := strings.Index(raw[i:], kw)
+					if j < 0 {
+						break
+					}
+					i += j + len(kw)
+					k := strings.IndexAny(raw[i:], ",)")
+					if k > 0 {
+						c.observed[strings.TrimSpace(raw[i:i+k])] = true
+					}
+				}
+			}
+		}
+	}
+	return c.observed[f]
+}
+
 // traceHavoc: the callee (or loop) may have appended any number of records.
 func (c *FuncCtx) traceHavoc(st *State, f string) {
 	sig := c.eng.traceSig(f)
 	n := c.traceN(st, f)
 	nn := c.fresh("T_"+traceIdent(f)+"_n", "Int")
 	st.assume(app("<=", n, nn))
+	if !c.observesTrace(f) {
+		// forget the records, keep the counters
+		for i := range sig {
+			c.traceArr(st, f, i)
+			st.heap[fmt.Sprintf("%s|%d", traceKey(f), i)] = c.fresh(fmt.Sprintf("T_%s_a%d", traceIdent(f), i), fmt.Sprintf("(Array Int %s)", c.eng.sortOf(sig[i])))
+		}
+		st.heap[traceKey(f)+"|n"] = nn
+		c.traceTime(st, f)
+		st.heap[traceKey(f)+"|t"] = c.fresh("T_"+traceIdent(f), "(Array Int Int)")
+		for i, rt := range c.eng.traceResSig(f) {
+			srt := c.eng.sortOf(rt)
+			c.traceRes(st, f, i, srt)
+			st.heap[fmt.Sprintf("%s|r%d", traceKey(f), i)] = c.fresh("T_"+traceIdent(f), fmt.Sprintf("(Array Int %s)", srt))
+		}
+		if rs := c.eng.traceResSig(f); len(rs) > 0 && c.eng.sortOf(rs[0]) == "Iface" {
+			nf := c.traceFails(st, f)
+			nnf := c.fresh("T_"+traceIdent(f)+"_fails", "Int")
+			st.assume(mkAnd(app("<=", nf, nnf), app("<=", mkSub(nnf, nf), mkSub(nn, n))))
+			st.heap[traceKey(f)+"|f"] = nnf
+		}
+		clk := c.traceClock(st)
+		nclk := c.fresh("T_clock", "Int")
+		st.assume(app("<=", clk, nclk))
+		st.heap["τ|$clock"] = nclk
+		return
+	}
 	for i := range sig {
 		arr := c.traceArr(st, f, i)
 		na := c.fresh(fmt.Sprintf("T_%s_a%d", traceIdent(f), i), fmt.Sprintf("(Array Int %s)", c.eng.sortOf(sig[i])))
